@@ -18,7 +18,7 @@ from .c18 import map_fingerprint
 
 PROP = "C06"
 KQ = ("NL", "CE")
-KT = KQ + ("J", "W3", "CO", "BL", "CD", "NLI")
+KT = KQ + ("J", "W0")
 
 
 def index_canon(oFile):
